@@ -12,6 +12,8 @@ From Coq Require Import ZArith List Bool QArith.
 From Pandora Require Import Model.MatchingCost Spec.Cost Proofs.MatchingCostP Proofs.PopcountP Proofs.CensusP Proofs.ZnccP.
 From Pandora Require Import Model.PyArith Proofs.PointIntervalGenP.
 From Pandora Require Gen.PointInterval.
+From Pandora Require Import Lib.NpArr Proofs.CensusZnccFnsP.
+From Pandora Require Gen.CensusZnccFns.
 Import ListNotations.
 Open Scope Z_scope.
 
@@ -304,6 +306,118 @@ Example C02_example :
   /\ sad_volume ex_inp (-1) 1 1 3 2 = None.
 Proof. vm_compute. repeat split. Qed.
 
+(* ------------------------------------------------------------------------------------------------------------
+   T-gen tie of the array code of the census and zncc rasters.  Gen/CensusZnccFns.v (module GF below) is REGENERATED
+   at every run from the source text of Census.popcount32b, Census.census_cost, img_tools.census_transform,
+   compute_mean_raster, compute_std_raster, AbstractMatchingCost.masks_dilatation and its call in cv_masked
+   (translator/gen_census_zncc_fns.py, Python ast, fail-closed), statement by statement, over the array operations of
+   Lib/NpArr.v: an array is (valid?, rows, columns, values); an operation numpy would refuse (operands of different
+   shapes, a negative dimension, an as_strided view leaving its buffer) clears the flag, Python slices keep their
+   semantics (x[b:-b] is empty for b = 0), uint32 arithmetic wraps modulo 2^32.  [is_arr a nr nc f]: a is valid, of
+   shape (nr, nc), and holds f at the non-negative indices.  The theorems below are per-run obligations. *)
+
+(* the generated popcount32b -- every uint32 operation truncated modulo 2^32 -- is the model's (no intermediate value
+   leaves [0, 2^32)), hence the number of set bits of every uint32 *)
+Theorem C02_gen_popcount32b_eq_model : forall x, 0 <= x < 2 ^ 32 -> GF.popcount32b x = popcount32b x.
+Proof. exact gen_popcount32b_eq. Qed.
+
+Theorem C02_gen_popcount32b_correct : forall x, 0 <= x < 2 ^ 32 -> GF.popcount32b x = pc 32 x.
+Proof. exact gen_popcount32b_correct. Qed.
+
+(* the generated census_transform (as_strided windows, centre slice [border:-border], the two loops over the window
+   with the decreasing shift, uint32 accumulation) on ANY image of at least w x w pixels, w odd, 3 <= w, w*w <= 32 (the
+   code accepts 3 and 5): numpy raises nowhere, the result has (ny - (w-1)) x (nx - (w-1)) pixels and is the model's
+   transform (one bit per window pixel, row-major, first pixel in the most significant bit) *)
+Theorem C02_gen_census_transform_eq_model : forall w ny nx I,
+  Z.odd w = true -> 3 <= w -> w * w <= 32 -> w <= ny -> w <= nx ->
+  let g := GF.census_transform (np_of ny nx I) w in
+  a_ok g = true /\ a_nr g = ny - (w - 1) /\ a_nc g = nx - (w - 1)
+  /\ forall r c, a_at g r c = census_transform w I r c.
+Proof. exact gen_census_transform_eq. Qed.
+
+(* C02_census_hamming restated on the GENERATED definitions: the cell census_cost computes from two transformed pixels
+   (both cast to uint32, xor, popcount32b) is the number of window pixels whose "greater than the centre of its
+   window" bits differ *)
+Theorem C02_gen_census_hamming : forall w ny nx I ny2 nx2 J r c r2 c2,
+  Z.odd w = true -> 3 <= w -> w * w <= 32 -> w <= ny -> w <= nx -> w <= ny2 -> w <= nx2 ->
+  GF.census_cost_cell (a_at (GF.census_transform (np_of ny nx I) w) r c)
+                      (a_at (GF.census_transform (np_of ny2 nx2 J) w) r2 c2)
+  = zsum (map (fun a => zsum (map (fun b =>
+       Z.b2z (xorb (I (r + a) (c + b) >? I (r + offset w) (c + offset w))
+                   (J (r2 + a) (c2 + b) >? J (r2 + offset w) (c2 + offset w)))) (zrange 0 w))) (zrange 0 w)).
+Proof. exact gen_census_hamming. Qed.
+
+(* the generated compute_mean_raster (zero row, cumulative sums down the rows, difference at distance w, zero column,
+   cumulative sums along the columns, difference, division) on any valid ny x nx array of integers, 0 < w <= ny, nx:
+   valid, (ny - (w-1)) x (nx - (w-1)), and at (r, c) the model's cumulative-sum raster divided by w * w *)
+Theorem C02_gen_mean_raster_eq_model : forall w ny nx, 0 < w -> w <= ny -> w <= nx ->
+  forall (a : arr Z) (I : Z -> Z -> Z), is_arr a ny nx I ->
+  is_arr (GF.compute_mean_raster a w) (ny - (w - 1)) (nx - (w - 1))
+         (fun r c => (inject_Z (sum_raster w ny nx I r c) / inject_Z (w * w))%Q).
+Proof. exact gen_mean_raster_is. Qed.
+
+(* the generated compute_std_raster is the square root of an array that is valid, of the same shape, and holds at
+   (r, c) exactly: v = E[x^2] - E[x]^2 = (the model's var_raster) / w^4, replaced by 0 where v < 10^-15 |E[x^2]|; and
+   that clamp never changes a value as long as w^2 * (sum of the squares of the window) < 10^15 (the variance of
+   integers is 0 or at least 1 / w^4): "the 1e-15 guard coincides with variance = 0" is a theorem, with its bound *)
+Theorem C02_gen_std_raster_eq_model : forall w ny nx, 0 < w -> w <= ny -> w <= nx ->
+  forall (a : arr Z) (I : Z -> Z -> Z), is_arr a ny nx I ->
+  let g := GF.compute_std_raster_var a w in
+  a_ok g = true /\ a_nr g = ny - (w - 1) /\ a_nc g = nx - (w - 1)
+  /\ forall r c, 0 <= r -> 0 <= c ->
+     let M2 := sum_raster w ny nx (fun rr cc => I rr cc * I rr cc) r c in
+     let v := (inject_Z (var_raster w ny nx I r c) / inject_Z (w * w * (w * w)))%Q in
+     (a_at g r c == if qltb v ((1 # 1000000000000000) * Qabs.Qabs (inject_Z M2 / inject_Z (w * w))) then 0 else v)%Q
+     /\ (w * w * M2 < 10 ^ 15 -> (a_at g r c == v)%Q).
+Proof. exact gen_std_raster_var_is. Qed.
+
+(* C02_mean_raster_eq_window_mean restated on the GENERATED rasters: the mean raster is the direct window mean, the
+   variance raster the direct window variance (never negative) *)
+Theorem C02_gen_mean_raster_eq_window_mean : forall w ny nx I r c, 0 < w -> w <= ny -> w <= nx -> 0 <= r -> 0 <= c ->
+  let m := GF.compute_mean_raster (np_of ny nx I) w in
+  let v := GF.compute_std_raster_var (np_of ny nx I) w in
+  let S1 := zsum (map (fun a => zsum (map (fun b => I (r + a) (c + b)) (zrange 0 w))) (zrange 0 w)) in
+  let S2 := zsum (map (fun a => zsum (map (fun b => I (r + a) (c + b) * I (r + a) (c + b)) (zrange 0 w))) (zrange 0 w)) in
+  a_ok m = true /\ a_nr m = ny - (w - 1) /\ a_nc m = nx - (w - 1)
+  /\ a_ok v = true /\ a_nr v = ny - (w - 1) /\ a_nc v = nx - (w - 1)
+  /\ (a_at m r c == inject_Z S1 / inject_Z (w * w))%Q
+  /\ 0 <= w * w * S2 - S1 * S1
+  /\ (w * w * S2 < 10 ^ 15 -> (a_at v r c == inject_Z (w * w * S2 - S1 * S1) / inject_Z (w * w * (w * w)))%Q).
+Proof. exact gen_mean_raster_eq_window_mean. Qed.
+
+(* the masks cv_masked obtains from its call of masks_dilatation, as generated (invalid = neither valid_pixels nor
+   no_data_mask; scipy binary_dilation of the no_data pixels with a full window_size x window_size structure, one
+   iteration; the two-column as_strided sum; arguments of the call: the two images in this order, self._window_size,
+   self._subpix) are the model's [mask_nan] of the left and of the right image, each with the mask convention (attrs
+   valid_pixels / no_data_mask) of its own dataset, and the third mask exists exactly
+   when subpix != 1 and is the model's [mask_shift] *)
+Theorem C02_gen_cv_masked_masks_eq_model : forall ny nx w s,
+  0 <= ny -> 1 <= nx -> 0 < w -> Z.odd w = true ->
+  forall (vp nd vpr ndr : Z) (IL IR : img) (mL mR : option img),
+  let res := GF.cv_masked_masks (ds_of ny nx vp nd IL mL) (ds_of ny nx vpr ndr IR mR) w s in
+  is_arr (fst res) ny nx (mask_nan ny nx w vp nd mL)
+  /\ is_arr (fst (snd res)) ny nx (mask_nan ny nx w vpr ndr mR)
+  /\ match snd (snd res) with
+     | Some sh => s <> 1 /\ is_arr sh ny (nx - 1) (mask_shift (mask_nan ny nx w vpr ndr mR))
+     | None => s = 1
+     end.
+Proof. exact gen_cv_masked_masks_eq. Qed.
+
+(* Non-vacuity of the generated definitions: popcount of the all-ones word; the census transform of a 3 x 4 image
+   with window 3 has shape 1 x 2 and value 0b101100100 = 356 at (0, 0) (pixels 9, 7, 6, 8 exceed the centre 5) and
+   0b010101011 = 171 at (0, 1); the cost cell of the two is 7 differing bits; the mean of the first window is 45 / 9 and the variance
+   (9 * 285 - 45 * 45) / 81; with a window of 1 the centre slice [0:-0] is empty and numpy would raise: not valid *)
+Definition gex_img : img := ex_img [[9;2;7;1];[6;5;3;8];[8;1;4;9]].
+Example C02_gen_fns_example :
+  GF.popcount32b 4294967295 = 32
+  /\ (let g := GF.census_transform (np_of 3 4 gex_img) 3 in (a_ok g, a_nr g, a_nc g, a_at g 0 0, a_at g 0 1))
+     = (true, 1, 2, 356, 171)
+  /\ GF.census_cost_cell 356 171 = 7
+  /\ a_ok (GF.census_transform (np_of 3 4 gex_img) 1) = false
+  /\ Qred (a_at (GF.compute_mean_raster (np_of 3 4 gex_img) 3) 0 0) = 5%Q
+  /\ Qred (a_at (GF.compute_std_raster_var (np_of 3 4 gex_img) 3) 0 0) = (20 # 3)%Q.
+Proof. vm_compute. repeat split. Qed.
+
 Print Assumptions C02_sad_model_eq_spec.
 Print Assumptions C02_ssd_model_eq_spec.
 Print Assumptions C02_census_model_eq_spec.
@@ -324,3 +438,11 @@ Print Assumptions C02_gen_cv_masked_eq_model.
 Print Assumptions C02_gen_point_interval_spec.
 Print Assumptions C02_gen_zncc_loop_spec.
 Print Assumptions C02_gen_cv_masked_loop_spec.
+Print Assumptions C02_gen_popcount32b_eq_model.
+Print Assumptions C02_gen_popcount32b_correct.
+Print Assumptions C02_gen_census_transform_eq_model.
+Print Assumptions C02_gen_census_hamming.
+Print Assumptions C02_gen_mean_raster_eq_model.
+Print Assumptions C02_gen_std_raster_eq_model.
+Print Assumptions C02_gen_mean_raster_eq_window_mean.
+Print Assumptions C02_gen_cv_masked_masks_eq_model.
